@@ -261,4 +261,11 @@ func init() {
 	reg(func(ex *Exec, fn *ssa.Function, args []Value, caller *frame) Value {
 		return args[0]
 	}, "internal/abi.NoEscape", "strings.noescape", "internal/abi.Escape")
+	// advisory file locks and paging advice: no effect on a single process model
+	reg(func(ex *Exec, fn *ssa.Function, args []Value, caller *frame) Value {
+		return Iface{}
+	}, "syscall.Flock", "github.com/pilosa/pilosa.madvise")
+	reg(func(ex *Exec, fn *ssa.Function, args []Value, caller *frame) Value {
+		return ex.constString("vfs-file")
+	}, "(*os.File).Name")
 }
